@@ -338,6 +338,34 @@ def iteration_progress(c):
 iteration_progress.__doc__ = 'the user enqueue function refused in this iteration, or: ' + progress_or_refused.__doc__
 
 
+def strict_progress(c):
+    return progress_or_refused(c, start=c.ex.ghost['__iter_start__'])
+
+
+strict_progress.__doc__ = ('every iteration of the retry loop that goes round again made progress in the well-founded order (number of non-closed workers, '
+                           'number of retries): one more worker closed, or fewer retries - also when the user enqueue function refuses (the loop then stops)')
+
+
+def no_progress_means_nothing_enqueued(c):
+    """try_enqueue called with a retry to hand out: if neither a worker was closed nor the retry list got shorter, this worker's pending list is as before"""
+    ex = c.ex
+    a = _pool(c)
+    a0 = ex.old['heap'][c.env['pool'].addr].attrs
+    r0 = ex.old['heap'][a0['_retries'].addr].seq
+    r1 = H(ex, a['_retries']).seq
+    c0 = ex.old['heap'][a0['_closed'].addr].dom
+    c1 = H(ex, a['_closed']).dom
+    w = c.env['worker']
+    p0 = ex.old['heap'][a0['_pending_per_worker'].addr]
+    p1 = H(ex, a['_pending_per_worker'])
+    return z3.Implies(z3.And(z3.Length(r0) > 0, c1 == c0, z3.Length(r1) >= z3.Length(r0)),
+                      z3.Length(z3.Select(p1.map, wkey(w))) == z3.Length(z3.Select(p0.map, wkey(w))))
+
+
+no_progress_means_nothing_enqueued.__doc__ = ('retries non-empty before, and afterwards no worker more is closed and the retry list is not shorter (the input was refused or the '
+                                              'worker turned out closed) ==> nothing was added to this worker\'s pending inputs')
+
+
 def no_refusal_in_retry_loop(c):
     g0 = c.ex.ghost['__iter_start__']['ghost']['refused']
     return z3.Implies(z3.Not(g0), z3.Not(c.ex.ghost['refused']))
@@ -558,6 +586,16 @@ def build_closure_contracts(ex, with_variants=True):
         return E_term(c) >= E_term(c, old=True) + held_term(c)
     in_hand_weak.__doc__ = 'E(e0) >= old(E(e0)) + [the input in hand is e0]'
 
+    def pending_of_worker_kept(c):
+        ex_ = c.ex
+        a = _pool(c)
+        a0 = ex_.old['heap'][c.env['pool'].addr].attrs
+        w = c.env['worker']
+        p0 = ex_.old['heap'][a0['_pending_per_worker'].addr]
+        p1 = H(ex_, a['_pending_per_worker'])
+        return z3.Length(z3.Select(p1.map, wkey(w))) == z3.Length(z3.Select(p0.map, wkey(w)))
+    pending_of_worker_kept.__doc__ = 'while the input is in hand nothing has been added to this worker\'s pending inputs'
+
     def progress_unless_refused(c):
         return z3.Or(c.ex.ghost['refused'], progress_or_refused(c))
     progress_unless_refused.__doc__ = 'the user enqueue function refused during this call, or: ' + progress_or_refused.__doc__
@@ -578,9 +616,9 @@ def build_closure_contracts(ex, with_variants=True):
     mk('try_enqueue', 'Lt', name='C07.Lt try_enqueue places the input it takes (worker, retries) or hands it to handle_unused_data; keeps Inv',
        params={'worker': abs_worker('worker')}, setup=with_poolenv(),
        requires=INV + [worker_registered(), worker_not_closed()],
-       ensures=INV + [conservation_kept, closed_monotone, ret_unchanged, no_answers, never_loses_negative, progress_unless_refused],
+       ensures=INV + [conservation_kept, closed_monotone, ret_unchanged, no_answers, never_loses_negative, progress_unless_refused, no_progress_means_nothing_enqueued],
        returns='bool', modifies=MODS,
-       loops={0: Loop(invariant=INV + [in_hand, in_hand_weak, retries_in_loop, closed_monotone, ret_unchanged, no_answers, worker_registered(), worker_not_closed()],
+       loops={0: Loop(invariant=INV + [in_hand, in_hand_weak, retries_in_loop, closed_monotone, ret_unchanged, no_answers, worker_registered(), worker_not_closed(), pending_of_worker_kept],
                       modifies=MODS, locals={'trials': 'int'})})
 
     # ---- handle_death
@@ -590,7 +628,7 @@ def build_closure_contracts(ex, with_variants=True):
        ensures=INV + [conservation_kept, closed_monotone, ret_unchanged, worker_closed(), no_answers, never_loses_negative],
        returns='none', modifies=MODS,
        loops={0: Loop(invariant=INV + [conservation_kept, closed_monotone, ret_unchanged, worker_closed(), no_answers, never_loses_negative],
-                      modifies=MODS, locals={'idle': opt_worker}, progress=[iteration_progress, no_refusal_in_retry_loop])})
+                      modifies=MODS, locals={'idle': opt_worker}, progress=[strict_progress])})
 
     # ---- handle_new_result
     def just_answered(c):
